@@ -221,9 +221,9 @@ func (P *Program) RunJob(job *Job) *JobResult {
 					if pr.Uncertain {
 						res.UncertainOK++
 					}
-					if len(res.OKSamples) < 3 && pr.Model != nil {
+					if len(res.OKSamples) < 8 && pr.Model != nil {
 						res.OKSamples = append(res.OKSamples, pr)
-						if len(res.OKSamples) >= 3 {
+						if len(res.OKSamples) >= 8 {
 							ex.okModels.Store(false)
 						}
 					}
